@@ -518,10 +518,11 @@ func (e *env) directed() {
 		seg = append([]*types.Header{base[0]}, seg...)
 		e.checkBatch("directed-from-genesis", "test", newChain(cfg), seg, make([]bool, len(seg)), e.eng, 0)
 	}
-	// (7) the hard-coded uncle exceptions on a chain that is not mainnet
-	{
+	// (7) the hard-coded uncle exceptions on a chain that is not mainnet: well inside the window, and on both sides of its
+	// edge (the loop counter block-1-ancestors is 15000, then 15001: there the uncle must be rejected as dangling)
+	for _, start := range []int64{700, 15002, 15003} {
 		cfg := params.TestnetChainConfig
-		base, seg := buildChain(r, cfg, 700, 4, now)
+		base, seg := buildChain(r, cfg, start, 4, now)
 		all := append(append([]*types.Header{}, base...), seg...)
 		blocks := map[int]*types.Block{}
 		for k := 1; k < len(all); k++ {
@@ -532,7 +533,7 @@ func (e *env) directed() {
 		junk.ParentHash = common.HexToHash("0x6b818656fb5059ab4dd070e2c2822a7774065090e74ff31515764212c88e2923")
 		junk.Number = big.NewInt(14003)
 		junk.Difficulty = big.NewInt(1)
-		e.checkUncles("directed/whitelist-parent", cfg, all, blocks, hdr, []*types.Header{junk}, false)
+		e.checkUncles(fmt.Sprintf("directed/whitelist-parent@%d", start), cfg, all, blocks, hdr, []*types.Header{junk}, false)
 	}
 }
 
